@@ -317,7 +317,7 @@ def main(argv=None):
                 unconfirmed.append((h.name, c, path))
         for p in g['problems']:
             inconclusive.append('%s: %s' % (h.name, p))
-        unmet = [k for k, v in g['cover'].items() if not v]
+        unmet = [k for k in h.cover if not g['cover'].get(k)]      # goals met beyond the declared ones are informational
         if unmet and not g['cex']:
             inconclusive.append('%s: cover goals not met: %s' % (h.name, ', '.join(sorted(unmet))))
         if g['stats'].get('paths', 0) == 0 and not g['cex']:
